@@ -425,14 +425,28 @@ The bounds oracle (`Lin.boundsOf` encloses `Sem.eval` on the box) is NOT a hypot
 section StageCE
 variable [FloorRing K]
 
-/-- **The requirement-indexed specification of `Exp::linearize`** on the piecewise-linear fragment:
-requirement flips through `-`, negative scales and divisions; sign-known `abs` shortcuts; one-sided `abs` rows;
-the exact big-M pair with selector; dominated-operand pruning; single retained operand; one-sided `min`/`max`
-rows; selector rows with `Σ sel = 1`. -/
-theorem linExp_spec {Src : Constraint (Ext K) → Prop} (e : Exp (Ext K)) (he : frag true e = true)
+/-- **The requirement-indexed specification of `Exp::linearize`, for EVERY expression** (Stages B, C and the
+value part of D): requirement flips through `-`, negative scales and divisions; sign-known `abs` shortcuts;
+one-sided `abs` rows; the exact big-M pair with selector; dominated-operand pruning; single retained operand;
+one-sided `min`/`max` rows; selector rows with `Σ sel = 1`; `not e = 1 − e`; the reified `and`/`or` (n-ary),
+`implies`, `iff`, `xor` with binary operands (`is_binary_context`).  The contract `Pre`: the state invariant
+holds, the variables of `e` are declared and used, `e` is defined at every assignment. -/
+theorem linExp_spec {Src : Constraint (Ext K) → Prop} (e : Exp (Ext K))
     (req : Req) (s : St (Ext K)) (c : Ctx (Ext K)) (s' : St (Ext K))
     (hpre : Pre Src e s) (h : linExp e req s = .ok (c, s')) : Spec Src e req s c s' :=
-  lin_spec_pl e he req s c s' hpre h
+  lin_spec_all e req s c s' hpre h
+
+/-- consequence, spelled out: a context returned for a logic connective is 0/1-valued and equal to the truth
+value, at every assignment satisfying the new domains and queue (`compiled_logic_binary` of DESIGN.md, appendix A:
+on compiled models truthiness and "equals 1" coincide). -/
+theorem linExp_and_value {Src : Constraint (Ext K) → Prop} (es : List (Exp (Ext K)))
+    (req : Req) (s : St (Ext K)) (c : Ctx (Ext K)) (s' : St (Ext K))
+    (hpre : Pre Src (.and es) s) (h : linExp (.and es) req s = .ok (c, s'))
+    (ρ : String → K) (hd : DomSat ρ s'.domain) (hq : QSat ρ s') (vs : List K) (hvs : Sem.evalList ρ es = some vs) :
+    ctxVal ρ c = Sem.ofBool (vs.all Sem.truthy) := by
+  have h' : linExp (.and es) .exact s = .ok (c, s') := by rw [linExp] at h ⊢; exact h
+  have hm : eval ρ (.and es) = some (Sem.ofBool (vs.all Sem.truthy)) := by rw [eval]; simp [hvs]
+  exact (lin_spec_all (Src := Src) (.and es) .exact s c s' hpre h').sound ρ hd hq _ hm
 
 /-- the loop: it empties the queue, and — up to fresh auxiliaries — keeps exactly the solutions. -/
 theorem drain_sound_complete {d0 : List (DomVar (Ext K))} (n : Nat) (s : St (Ext K)) (r : Unit × St (Ext K))
